@@ -315,15 +315,18 @@ def parseDictHeader (s : Str) : Except String (Dict (Option Str)) :=
 
 /-! ### option headers -/
 
+/-- one `key=value` segment of `dump_options_header`; `none` for a `None` value (skipped) -/
+def optionSegment (kv : Str × Option Str) : Except String (Option Str) :=
+  match kv.2 with
+  | none => pure none
+  | some v => do
+    let l ← last! kv.1
+    if l == '*' then pure (some (kv.1 ++ '=' :: v)) else pure (some (kv.1 ++ '=' :: quoteHeaderValue v))
+
 /-- `dump_options_header(header, options)` -/
 def dumpOptionsHeader (header : Option Str) (options : Dict (Option Str)) : Except String Str := do
-  let segs ← options.filterMapM fun (key, value) =>
-    match value with
-    | none => pure none
-    | some v => do
-      let l ← last! key
-      if l == '*' then pure (some (key ++ '=' :: v)) else pure (some (key ++ '=' :: quoteHeaderValue v))
-  pure (join "; " ((match header with | some h => [h] | none => []) ++ segs))
+  let segs ← options.mapM optionSegment
+  pure (join "; " ((match header with | some h => [h] | none => []) ++ segs.filterMap id))
 
 /-- the quoted-string scan of `parse_options_header` after the opening quote; `acc` (reversed) starts
 as `['"']`. Returns the quoted text including both quotes and the remaining text; `none` when the
@@ -414,6 +417,8 @@ def optPart (st : OptState) (pk pv : Str) : Except String OptState := do
     return { st with options := dictSet st.options base (old ++ pv) }
   | none => return { st with options := dictSet st.options pk pv }
 
+def optFold (st : OptState) (p : Str × Str) : Except String OptState := optPart st p.1 p.2
+
 /-- `parse_options_header(value)` for a `str` value -/
 def parseOptionsHeader (value : Str) : Except String (Str × Dict Str) := do
   let (v0, _, r0) := partition ';' value
@@ -421,7 +426,7 @@ def parseOptionsHeader (value : Str) : Except String (Str × Dict Str) := do
   let rest := strip r0
   if v.isEmpty || rest.isEmpty then return (v, [])
   let parts := optScan (rest.length + 1) rest []
-  let st ← parts.foldlM (init := ({} : OptState)) fun st (pk, pv) => optPart st pk pv
+  let st ← parts.foldlM optFold {}
   return (v, st.options)
 
 /-! ### sets -/
@@ -892,6 +897,7 @@ def acceptItem (item : Str) : Except String (Option (Str × Str)) := do
 /-- `parse_accept_header(value)`: `(item, quality text)` pairs in header order (the class sorts them) -/
 def parseAcceptHeader (value : Str) : Except String (List (Str × Str)) := do
   if value.isEmpty then return []
-  (parseListHeader value).filterMapM acceptItem
+  let items ← (parseListHeader value).mapM acceptItem
+  return items.filterMap id
 
 end Wz.Http
